@@ -302,9 +302,9 @@ Definition owner_eqb (a b : owner) : bool :=
    * non-text destination: no text is stored, the buffer is not involved;
    * a scalar rendered with a buffer: the text is the part of the buffer that
      follows its previous content ("the produced text lives in the buffer");
-   * a scalar rendered without a buffer: anywhere but in the source - in place
-     of the old content or freshly allocated (the property only demands that
-     the content is replaced);
+   * a scalar rendered without a buffer: freshly allocated - not in the source and not in
+     place of the old content either, whose array the destination may share with whoever
+     supplied it (text is assigned by reference: "leave ... untouched" covers that memory);
    * text into text: nothing is produced; the text is silent on whether the
      destination shares the source's bytes or holds a copy (in the buffer or not). *)
 Definition owners_allowed (dk : skind) (src : source) (buf : option string) (t : string)
@@ -312,7 +312,7 @@ Definition owners_allowed (dk : skind) (src : source) (buf : option string) (t :
   if negb (text_kind dk) then [(ONone, buf)]
   else if scalar_src src then
     match buf with
-    | None => [(OOld, None); (OFresh, None)]
+    | None => [(OFresh, None)]
     | Some pre => [(OBuf (String.length pre), Some (pre ++ t)%string)]
     end
   else
